@@ -44,6 +44,9 @@ fn main() {
             let scratch = args.get(5).cloned().unwrap_or_else(|| "/verif/.build/scratch".to_string());
             c11::run(&mut out, tier, seed, &scratch)
         }
+        // the terminal rendering stream alone (line, column, caret padding and underline length for every span of
+        // every small document): also part of C19
+        "c11r" => c11::render_only(&mut out, tier),
         "c11child" => {
             drop(out);
             c11::child(&args[5], outfile);
